@@ -51,10 +51,10 @@ func c24(r *core.Run) {
 	gateCommit := func(f *ssa.Function) bool { return commitObj != nil && f.Object() == commitObj }
 	g := w.GatedCallers(anyOf(isLedgerSetValue, slabCommit), gateCommit)
 	reportGated(r, "R1.write", g, map[string]string{
-		"runtime.writeSlabIndexToRegister":                     "writes one account storage-map index register",
+		"runtime.writeSlabIndexToRegister":                      "writes one account storage-map index register",
 		"runtime.(AccountStorage).writeAccountStorageSlabIndex": "commit helper",
-		"runtime.(AccountStorage).commit":                      "account storage commit, called from Storage.commit",
-		"runtime.(ExternalInterface).SetValue":                 "panic/err wrapper delegating to the embedded Interface",
+		"runtime.(AccountStorage).commit":                       "account storage commit, called from Storage.commit",
+		"runtime.(ExternalInterface).SetValue":                  "panic/err wrapper delegating to the embedded Interface",
 	}, nil, "a ledger SetValue / atree slab commit", "runtime.(Storage).commit")
 	// the gate itself must still contain both write mechanisms
 	if cf := mustFn(r, "R1.write", "runtime", "Storage", "commit"); cf != nil {
